@@ -90,7 +90,7 @@ func staleKey(key []byte, ver uint64) string { return fmt.Sprintf("%x@%d", key, 
 // knownStale reports whether serving version ver of key is the listed finding
 // gc-old-version-resurfaces (never in Strict mode).
 func (in *Interp) knownStale(key []byte, ver, readTs uint64) bool {
-	if in.Strict || in.StrictStale || !in.stale[staleKey(key, ver)] {
+	if in.Strict || in.StrictStale || (!in.stale[staleKey(key, ver)] && !in.lowStale[staleKey(key, ver)]) {
 		return false
 	}
 	// The finding's mechanism: every version between the re-inserted old one and the reader's
@@ -174,6 +174,9 @@ type Interp struct {
 	AfterOp      func(in *Interp) error
 	skip         int      // ops still to be skipped by the main loop (they ran inside a GC pause)
 	pendingStale []string // see doGC
+	// lowStale: (key, version) pairs written in managed mode below a newer delete / expiring /
+	// discard-earlier entry of the same key (known finding managed-lower-write-above-purged-marker)
+	lowStale map[string]bool
 	// TsRestarts counts re-opens after which the DB restarted its timestamps below dropped dead versions.
 	TsRestarts int
 	// Ext holds the op kinds of derived checks (stream, backup, drop, ...), Cnt their counters.
@@ -809,6 +812,18 @@ func (in *Interp) doCommit(slot int, op Op) error {
 			in.St.Overwrites++
 			if in.P.Spec.Managed && in.m.Keys[k][0].Ts > commitTs {
 				in.St.ManagedLowerWrite++
+				// Known finding managed-lower-write-above-purged-marker: this version is written
+				// AFTER (physically above) a newer delete / expiring / discard-earlier entry of its
+				// key; when a compaction purges that marker at the bottom, this version resurfaces.
+				for _, w := range in.m.Keys[k] {
+					if w.Ts > commitTs && (w.Deleted || w.ExpiresAt != 0 || w.Discard) {
+						if in.lowStale == nil {
+							in.lowStale = map[string]bool{}
+						}
+						in.lowStale[staleKey([]byte(k), commitTs)] = true
+						break
+					}
+				}
 			}
 		}
 		if v.Deleted {
